@@ -431,6 +431,8 @@ class FakeTime:
 
     def __init__(self, plan):
         self.t = plan.get("start", 1.7e9)
+        self.t0 = self.t
+        self.span = 0.0
         self.jumps = plan.get("jumps", [0.5])
         self.i = 0
         self.reads = 0
@@ -443,6 +445,7 @@ class FakeTime:
         if j < 0:
             self.backward += 1
         self.t += j
+        self.span += abs(j)
         return self.t
 
     def __getattr__(self, n):
